@@ -143,6 +143,25 @@ def main(tier, seed):
                     if not all(close(g, e) for g, e in zip(viaf, exp)):
                         run.violation({"site": "iast_point_fraction", "config": cfg + ", " + tag, "observed": "loadings differ from the closed form"},
                                       {"expected": exp, "returned": list(map(float, viaf)), **detail})
+            if nrows % 5 == 0:
+                # integer-typed inputs of equal value (the grid pressures are integers): lists of Python ints, integer arrays,
+                # a Python int as total pressure - same result as the float input, same closed form
+                pint = [int(v) for v in p]
+                Pint = int(sum(pint))
+                variants = [("list of ints", lambda: ia.iast_point(isos, pint, warningoff=True)),
+                            ("integer array", lambda: ia.iast_point(isos, numpy.array(pint), warningoff=True)),
+                            ("fractions with an integer total pressure", lambda: ia.iast_point_fraction(isos, [v / Pint for v in pint], Pint, warningoff=True))]
+                for vt, fn in (variants if thorough else [variants[(nrows // 5 + seed) % 3], variants[(nrows // 5 + seed + 1) % 3]]):
+                    r = attempt("iast_point", cfg + ", " + vt, fn, True)
+                    if r is None:
+                        run.violation({"site": "iast_point", "config": cfg + ", " + vt, "observed": "integer-typed input refused although the float input of equal value returns"}, {"p": pint})
+                        continue
+                    run.count(("int", key, vt))
+                    if vt != "fractions with an integer total pressure":
+                        add({"k": "same", "a": enc(got), "b": enc(r)}, {"site": "iast_point", "config": cfg + ", " + vt + " vs float input"})
+                    if not all(close(g, e) for g, e in zip(r, exp)):
+                        run.violation({"site": "iast_point", "config": cfg + ", " + vt, "observed": "loadings differ from the closed form"},
+                                      {"K": row["K"], "p": pint, "expected": exp, "returned": list(map(float, r))})
             if nrows % 11 == 0 and n >= 2:
                 # permuted order on the real code
                 sigma = list(range(n))
@@ -158,7 +177,12 @@ def main(tier, seed):
             cfg = f"{row['fam']} closed form, {n} components"
             key = ("rev", row["fam"], tuple(map(tuple, row["K"])), tuple(map(tuple, row["x"])), tuple(row["P"]), tuple(row["M"]))
             run.count(key, nontrivial=len({tuple(k) for k in row["K"]}) > 1)
-            got = attempt("reverse_iast", cfg, lambda: ia.reverse_iast(isos, x, P, warningoff=True), True)
+            x_before = x.copy()
+            Parg = int(P) if (len(judge_recs) + int(P)) % 2 else P            # the grid pressures are integers: pass them as Python ints half of the time
+            got = attempt("reverse_iast", cfg, lambda: ia.reverse_iast(isos, x, Parg, warningoff=True), True)
+            if not numpy.array_equal(x, x_before):
+                run.add("caller_array_changed_not_judged")
+                x = x_before
             if got is None:
                 continue
             y, load = got
@@ -323,6 +347,66 @@ def main(tier, seed):
             run.count(("inverse2", key))
             add({"k": "close", "a": enc(load), "b": enc(fwd)}, {"site": "iast_point_fraction", "config": cfg + ", inverse of reverse_iast", "components": names, "x": x.tolist(), "P": P})
 
+    # ---- trace components: requested adsorbed fractions / gas fractions of 1e-4 and 1e-6
+    tr_rational = [rational_iso("langmuir", [2, 1], k) for k in ([1, 2], [3, 1], [1, 1], [3, 1])]
+    for ti, (eps, n) in enumerate([(e, k) for e in (1e-4, 1e-6) for k in (2, 3, 4)]):
+        mixes = [("equal-capacity Langmuir", tr_rational[:n])]
+        for _ in range(3 if thorough else 1):
+            comp = rng.sample([c for c in pool if not c[0].startswith("TemkinApprox")], n)
+            mixes.append(("+".join(c[0] for c in comp), [c[1] for c in comp]))
+        for mname, isos in mixes:
+            # the trace component is never put LAST: the solvers eliminate the last fraction (1 - sum of the others), whose
+            # relative accuracy is then xtol / fraction (2e-4 at 1e-6) - numerical accuracy the property does not decide
+            for pos in (range(n - 1) if thorough else [(ti + seed) % (n - 1)]):
+                frac = numpy.full(n, (1.0 - eps) / (n - 1))
+                frac[pos] = eps
+                frac[(pos + 1) % n] = 1.0 - (float(numpy.sum(frac)) - frac[(pos + 1) % n])
+                if float(numpy.sum(frac)) != 1.0:
+                    continue
+                P = [1.0, 2.0, 5.0][(ti + pos) % 3]
+                cfg = f"trace component ({eps:g}), {n} components"
+                names = [mname] * n if mname.startswith("equal") else mname.split("+")
+                # reverse problem: default guess and a user guess
+                res = {}
+                for gname, g in (("default guess", None), ("user guess", [1.0 / n] * n)):
+                    xa = frac.copy()
+                    back = attempt("reverse_iast", cfg, lambda: ia.reverse_iast(isos, xa, P, gas_mole_fraction_guess=g, warningoff=True), False)
+                    if not numpy.array_equal(xa, frac):
+                        run.add("caller_array_changed_not_judged")
+                    run.count(("trace-rev", mname, eps, n, pos, gname), nontrivial=back is not None)
+                    if back is None:
+                        continue
+                    yb, lb = (numpy.asarray(v, dtype=float) for v in back)
+                    if not (numpy.all(numpy.isfinite(lb)) and numpy.all(numpy.isfinite(yb)) and lb.sum() > 0 and numpy.all(yb > 0)):
+                        continue        # degenerate roots are judged (and listed) in the seeded part
+                    res[gname] = numpy.concatenate([yb, lb])
+                    try:
+                        q0, qi, m0, qd = observe(isos, yb * P, lb)
+                    except Exception:
+                        continue
+                    add({"k": "revobs", "x": enc(frac), "P": dec_enc(P), "y": enc(yb), "p": enc(yb * P), "load": enc(lb), "p0": enc(q0), "pi": enc(qi), "n0": enc(m0), **qd},
+                        {"site": "reverse_iast", "config": cfg + ", " + gname, "components": names, "x": frac.tolist(), "P": P})
+                    fwd = attempt("iast_point_fraction", cfg, lambda: ia.iast_point_fraction(isos, yb, P, warningoff=True), False)
+                    if fwd is not None:
+                        add({"k": "close", "a": enc(lb), "b": enc(fwd)}, {"site": "iast_point_fraction", "config": cfg + ", inverse of reverse_iast (" + gname + ")", "components": names, "x": frac.tolist(), "P": P})
+                if len(res) == 2:
+                    add({"k": "close", "a": enc(res["user guess"]), "b": enc(res["default guess"])},
+                        {"site": "reverse_iast", "config": cfg + ", default guess vs user guess", "components": names, "x": frac.tolist(), "P": P})
+                # forward problem with a trace gas fraction, and back
+                load = attempt("iast_point_fraction", cfg, lambda: ia.iast_point_fraction(isos, frac.copy(), P, warningoff=True), False)
+                run.count(("trace-fwd", mname, eps, n, pos), nontrivial=load is not None)
+                if load is None:
+                    continue
+                load = numpy.asarray(load, dtype=float)
+                if not (numpy.all(numpy.isfinite(load)) and numpy.all(load > 0)):
+                    continue
+                try:
+                    p0, pi, n0, qd = observe(isos, frac * P, load)
+                except Exception:
+                    continue
+                add({"k": "point", "p": enc(frac * P), "load": enc(load), "p0": enc(p0), "pi": enc(pi), "n0": enc(n0), **qd},
+                    {"site": "iast_point_fraction", "config": cfg + ", trace gas fraction", "components": names, "p": (frac * P).tolist()})
+
     # ================= 4. helpers, default arguments, two-branch point isotherms
     def same(site, cfg, a, b, detail):
         """helper output b must be exactly the point calculation a (TLC on the encodings, float64 bit-for-bit here)"""
@@ -341,6 +425,17 @@ def main(tier, seed):
                           {"message": str(e)[:200], **detail})
             return None
 
+    def refused_by_point(site, cfg, fn, detail):
+        """one of the point calculations behind this helper call raises: what the point calculation gives is that
+        refusal, so the helper must raise as well - it may not return numbers (or NaN) in its place"""
+        try:
+            out = fn()
+        except Exception:
+            run.add("helper_refuses_where_point_calculation_refuses")
+            return
+        run.violation({"site": site, "config": cfg, "observed": "helper returns a result although the point calculation raises"},
+                      {**detail, "returned": {k: [float(v) for v in out[k]] for k in out}})
+
     def check_helpers(isos, cfg, bkw, beff, ys, plists, vleP, npts, tag):
         for y in ys:
             ya = numpy.asarray(y)
@@ -352,10 +447,11 @@ def main(tier, seed):
                         exp = None
                         break
                     exp.append((l[0] / ya[0]) / (l[1] / ya[1]))
-                run.count(("svp", tag, tuple(y), tuple(pl), tuple(bkw.items())), nontrivial=exp is not None and list(pl) != sorted(pl))
-                if exp is None:
-                    continue
+                run.count(("svp", tag, tuple(y), tuple(pl), tuple(bkw.items())), nontrivial=exp is None or list(pl) != sorted(pl))
                 detail = {"pressures": list(pl), "gas_fractions": list(y), "arguments": dict(bkw)}
+                if exp is None:
+                    refused_by_point("iast_binary_svp", cfg, lambda: ia.iast_binary_svp(isos, y, list(pl), warningoff=True, **bkw), detail)
+                    continue
                 out = helper_call("iast_binary_svp", cfg, lambda: ia.iast_binary_svp(isos, y, list(pl), warningoff=True, **bkw), detail)
                 if out is None:
                     continue
@@ -370,11 +466,12 @@ def main(tier, seed):
                     ex = None
                     break
                 ex.append(l[0] / (l[0] + l[1]))
-            run.count(("vle", tag, P, tuple(bkw.items())), nontrivial=ex is not None)
+            run.count(("vle", tag, P, tuple(bkw.items())), nontrivial=True)
+            detail = {"total_pressure": P, "npoints": npts, "arguments": dict(bkw)}
             if ex is None:
+                refused_by_point("iast_binary_vle", cfg, lambda: ia.iast_binary_vle(isos, P, npoints=npts, warningoff=True, **bkw), detail)
                 continue
             ex.append(1.0)
-            detail = {"total_pressure": P, "npoints": npts, "arguments": dict(bkw)}
             out = helper_call("iast_binary_vle", cfg, lambda: ia.iast_binary_vle(isos, P, npoints=npts, warningoff=True, **bkw), detail)
             if out is None:
                 continue
@@ -395,6 +492,18 @@ def main(tier, seed):
     for j in range(10 if thorough else 3):
         pair = rng.sample(pool, 2)
         binaries.append((pair[0][0] + "+" + pair[1][0], [c[1] for c in pair]))
+    # point isotherms measured up to 10 bar: at 5 bar total pressure SOME compositions need p_i/x_i beyond the data
+    # and the point calculation refuses them (CalculationError); the sweeps must not paper over that
+    sgrid = numpy.concatenate([numpy.linspace(0.05, 1, 12), numpy.linspace(1.2, 10, 20)])
+
+    def short(name, k):
+        m = get_isotherm_model(name, parameters=dict(PAR[name][k]))
+        return pygaps.PointIsotherm(pressure=sgrid, loading=m.loading(sgrid), branch="ads", **BASE)
+
+    for tag, pair in (("short-range points Langmuir+Toth", [short("Langmuir", 1), short("Toth", 0)]),
+                      ("short-range points Langmuir+Henry", [short("Langmuir", 1), short("Henry", 0)]),
+                      ("short-range points Toth+Langmuir", [short("Toth", 0), short("Langmuir", 1)])):
+        check_helpers(pair, "binary helper, point isotherms measured up to 10 bar", {}, "ads", [[0.5, 0.5], [0.25, 0.75]], [[1.0, 5.0], [5.0, 0.5, 2.0]], [5.0, 1.0], 5, tag)
     for bi, (tag, isos) in enumerate(binaries):
         ys = [[0.25, 0.75], [0.5, 0.5], [0.1, 0.9]] if thorough else [[0.25, 0.75], [[0.5, 0.5], [0.1, 0.9]][(bi + seed) % 2]]
         pls = arrangements if thorough else [arrangements[1 + (bi + seed) % 3], arrangements[(bi + seed + 1) % 4]]
@@ -524,6 +633,7 @@ def main(tier, seed):
                  "default and 3 user starting guesses, permuted orders, forward->reverse and reverse->forward; helpers on binary mixtures; "
                  "non-trivial: components or pressures differ / the call returned a result; distinct = distinct (kind, mixture, pressures, guess)")
     run.assume("the input isotherms' own spreading_pressure_at / loading_at are observations (their correctness is C10/C11)")
+    run.assume("trace components (1e-4, 1e-6) are placed in every position but the last: the solvers eliminate the last mole fraction, whose relative accuracy degrades as xtol / fraction")
     run.assume("BET is excluded: its spreading pressure is not defined for all p > 0 (property quantifier)")
     run.assume("calls that raise are 'no result' and are not judged; for the rational families any exception other than CalculationError is reported")
     return run.finish()
